@@ -27,6 +27,8 @@ SPEC = {
     'declined': ['traversal order and path bookkeeping', 'visit semantics', 'output == recursive rebuild for every shape'],
     'trusted_base': [], 'assumptions': ['user callbacks follow the documented protocol'], 'exhaustive': True,
 }
+SPEC['explanation'] += ' T3.items: the items iterator returned by enter() is traversed at most once per pass (it may be one-shot). T9.wholepath: get_path walks the path as given (re-bound only to its split form, loop over the whole path).'
+SPEC['decided'] += ['enter() items traversed once', 'whole path walked']
 MANIFEST = {
     'technique': 'role-typed effect analysis (who is mutated), freshness of returned parents, must-pass-through registry updates on CFG paths',
     'text': ('Decides three necessary structural clauses of C08: remap and its defaults never write to the input, rebuilt containers '
@@ -83,6 +85,26 @@ def segment_lookup(ctx, prog):
                    path=p.describe() if not ok else None)
     if n == 0:
         ctx.unknown('T9.seg', gp.fq, 'no per-segment lookup found', gp.loc)
+    # T9.wholepath: every segment of the given path is looked up: the path parameter is re-bound at most to its own split form
+    # (a dotted string), never to a slice / filtered copy of itself (a dropped segment -- e.g. a leading None, which is a legal
+    # dict key -- resolves a different object)
+    pth = gp.params[1] if len(gp.params) > 1 else 'path'
+    for nd in ast.walk(gp.node):
+        if isinstance(nd, ast.Assign) and any(isinstance(t, ast.Name) and t.id == pth for t in nd.targets):
+            v = nd.value
+            ok = isinstance(v, ast.Call) and isinstance(v.func, ast.Attribute) and v.func.attr in ('split', 'rsplit') and \
+                txt(v.func.value) == pth
+            ok = ok or (isinstance(v, ast.Call) and call_name(v) in ('tuple', 'list') and len(v.args) == 1 and txt(v.args[0]) == pth)
+            ctx.ob('T9.wholepath', gp.fq, 'the path is walked as given: `%s` is re-bound only to its own split / tuple form' % pth, ok,
+                   loc=loc(gp, nd), detail='%s = %s' % (pth, txt(v)[:60]))
+    loops = [nd for nd in ast.walk(gp.node) if isinstance(nd, ast.For)]
+    for lp in loops:
+        it = lp.iter
+        if pth not in {x.id for x in ast.walk(it) if isinstance(x, ast.Name)}:
+            continue              # some other loop
+        ok = not any(isinstance(x, (ast.Subscript, ast.Slice)) for x in ast.walk(it)) and \
+            not any(isinstance(x, ast.Call) and call_name(x) in ('filter', 'islice', 'itertools.islice') for x in ast.walk(it))
+        ctx.ob('T9.wholepath', gp.fq, 'the segment loop iterates the whole path', ok, loc=loc(gp, lp), detail='for ... in %s' % txt(it)[:60])
 
 
 def immutable_rebuild(ctx, prog):
